@@ -38,7 +38,6 @@ INLINE = list(_c.INLINE)
 CONTRACTS = dict(_c.CONTRACTS)
 SPEC_CONSTS = dict(_c.SPEC_CONSTS)
 STABLE_BINDERS = True  # the same clause text over the same values is the identical term (engine._quant)
-DICT_ORDER_INVARIANT = True  # insertion-ordered dicts at loop heads: `order` lists exactly the keys, each once (engine.assume_dict_wf)
 
 UFUNS.update({
     "fs_has": (["int", "int"], "bool"),   # key k occurs in the interned frozenset-of-items s
@@ -369,7 +368,11 @@ class all_dot_brackets:
         0: {"index": "c0", "inv": [
             "graph_sound(graph, R)",
             "graph_complete_upto(graph, R, c0)",
-            "forall(lambda x: implies(x in graph, NB[x] in graph[x]))"]},
+            "forall(lambda x: implies(x in graph, NB[x] in graph[x]))",
+            # list(graph.keys()) lists exactly the keys (ghost inverse VP = position of a key in insertion order)
+            "len(graph) >= 0",
+            "forall(lambda q: implies(0 <= q and q < len(graph), list(graph.keys())[q] in graph))",
+            "forall(lambda x: implies(x in graph, 0 <= VP[x] and VP[x] < len(graph) and list(graph.keys())[VP[x]] == x))"]},
         # connected components (DFS)
         1: {"index": "v1", "inv": DFS + [
             "forall(lambda x, y: implies(x in GR and visited[x] and y in GR[x], visited[y] and CI[y] == CI[x]))"]},
@@ -426,18 +429,22 @@ class all_dot_brackets:
     }
     ghost = [
         {"when": "after", "at": "regions = self.__regions", "label": "R",
-         "do": ["let R = regions", "let GS = __regions_GS", "let NB = fill(len(regions), 0 - 1)"]},
-        {"when": "after", "at": "graph[i].add(j)", "label": "NBi", "do": ["let NB = upd(NB, i, j)"]},
-        {"when": "after", "at": "graph[j].add(i)", "label": "NBj", "do": ["let NB = upd(NB, j, i)"]},
+         "do": ["let R = regions", "let GS = __regions_GS", "let NB = fill(len(regions), 0 - 1)",
+                "let VP = fill(len(regions), 0 - 1)", "let WI = True"]},
+        {"when": "before", "at": "graph[i].add(j)", "label": "WIi", "do": ["let WI = i in graph"]},
+        {"when": "after", "at": "graph[i].add(j)", "label": "NBi",
+         "do": ["let NB = upd(NB, i, j)", "let VP = ite(WI, VP, upd(VP, i, len(graph) - 1))"]},
+        {"when": "before", "at": "graph[j].add(i)", "label": "WIj", "do": ["let WI = j in graph"]},
+        {"when": "after", "at": "graph[j].add(i)", "label": "NBj",
+         "do": ["let NB = upd(NB, j, i)", "let VP = ite(WI, VP, upd(VP, j, len(graph) - 1))"]},
         {"when": "after", "at": "vertices = list(graph.keys())", "label": "conflict-graph",
          "do": ["let GR = plain(graph)", "assert graph_sound(GR, R)", "assert graph_complete(GR, R)",
-                "assert forall(lambda x: implies(x in GR, exists(lambda q: 0 <= q and q < len(vertices) and vertices[q] == x)))",
                 # proof cut: from here on only the facts below are known (small solver contexts)
                 "cut " + " and ".join(BASE + [
                     "len(vertices) >= 0",
                     "forall(lambda x: implies(x in GR, NB[x] in GR[x]))",
                     "forall(lambda q: implies(0 <= q and q < len(vertices), vertices[q] in GR))",
-                    "forall(lambda x: implies(x in GR, exists(lambda q: 0 <= q and q < len(vertices) and vertices[q] == x)))"])]},
+                    "forall(lambda x: implies(x in GR, 0 <= VP[x] and VP[x] < len(vertices) and vertices[VP[x]] == x))"])]},
         {"when": "before", "at": "visited = {", "label": "has-a-pseudoknot",
          "do": ["assert cross(regions, vertices[0], NB[vertices[0]])", "assert not knot_free(regions)"]},
         {"when": "after", "at": "components = []", "label": "dfs0",
